@@ -80,6 +80,7 @@ type stress struct {
 	gate    sync.RWMutex
 	closing bool
 
+	deadlocked                          chan struct{}
 	progress                            []int64 // per worker step counters
 	inCall                              []int32 // per worker: inside a txfile call
 	remaps                              int64
@@ -613,6 +614,7 @@ func (s *stress) watch(done chan struct{}, nWorkers int) {
 		}
 		if allIn && blocked > 0 {
 			shared, pending, resFree := s.f.VerifLockState()
+			close(s.deadlocked)
 			s.violate("deadlock", "deadlock", "no worker makes progress; %d worker go-routines are parked on locks inside go-txfile; lock state shared=%d pending=%v reservedFree=%v\n%s", blocked, shared, pending, resFree, core.TrimStack(dump))
 			// release the case: nothing more can be learned
 			return
@@ -707,7 +709,7 @@ func runStress(c *core.Case, prop string, sc stressCfg) *core.Result {
 	}
 	cfg.InitMetaArea = []uint32{0, 0, 4, 16}[r.Intn(4)]
 	s := &stress{c: c, cfg: cfg, sc: sc, res: res, prop: prop, ps: int(cfg.PageSize),
-		states: map[uint64]verVec{}, invalid: map[uint64]string{}, events: map[string]int64{}}
+		states: map[uint64]verVec{}, invalid: map[uint64]string{}, events: map[string]int64{}, deadlocked: make(chan struct{})}
 	n := sc.Readers + sc.Writers + 1
 	s.progress = make([]int64, n)
 	s.inCall = make([]int32, n)
@@ -779,7 +781,13 @@ func runStress(c *core.Case, prop string, sc stressCfg) *core.Result {
 		wwg.Wait()
 		atomic.StoreInt32(&s.stop, 1)
 	}()
-	wg.Wait()
+	finished := make(chan struct{})
+	go func() { wg.Wait(); close(finished) }()
+	select {
+	case <-finished:
+	case <-s.deadlocked:
+		// workers parked forever inside go-txfile are abandoned
+	}
 	close(done)
 
 	s.mu.Lock()
@@ -812,7 +820,12 @@ func init() {
 		Assumptions: append([]string{"interleavings are sampled by the Go scheduler plus injected yields, not enumerated; evidence lists the (reader event @ writer commit point) pairs actually observed"}, simdiskAssumptions...),
 		NumCases:    func(t string) int { return tierN(t, 96, 12000) },
 		Race:        func(t string, i int) bool { return true },
-		CaseTimeout: func(t string) time.Duration { return 5 * time.Minute },
+		CaseTimeout: func(t string) time.Duration {
+			if t == "thorough" {
+				return 10 * time.Minute
+			}
+			return 2 * time.Minute
+		},
 		Run: func(c *core.Case) *core.Result {
 			sc := stressCfg{Readers: 1 + c.R.Intn(4), Writers: 1, TxPerWriter: 20 + c.R.Intn(25), Perturb: true, HoldMax: []int{0, 5, 50, 400}[c.R.Intn(4)], Faults: c.R.Chance(1, 3)}
 			return runStress(c, "C02", sc)
@@ -841,7 +854,12 @@ func init() {
 		Assumptions: append([]string{"a Begin is never started after File.Close was called (documented precondition); transactions open at that time overlap with Close", "a run that does not finish without the deadlock detector's state facts is reported as inconclusive (watchdog), never as violation"}, simdiskAssumptions...),
 		NumCases:    func(t string) int { return tierN(t, 96, 12000) },
 		Race:        func(t string, i int) bool { return true },
-		CaseTimeout: func(t string) time.Duration { return 5 * time.Minute },
+		CaseTimeout: func(t string) time.Duration {
+			if t == "thorough" {
+				return 10 * time.Minute
+			}
+			return 2 * time.Minute
+		},
 		Run: func(c *core.Case) *core.Result {
 			if c.Idx%4 == 3 {
 				// cooperative scheduler: enumerated schedules of small actor sets
